@@ -223,6 +223,10 @@ def run(ctx):
     good = [c for c in sorted(gen.json, key=lambda c: c["k"]) if c["in"]][:45]
     lines = [dec(c["line"]) for c in good]
     lines = lines + lines[:10] + [l.replace("\t100\t", "\t101\t") for l in lines[:10]]
+    # printed lines that END in white space and differ from each other only there: an attribute-less line (ends with a tab), the same with an
+    # empty tenth column, and with a tenth column holding one blank
+    bare = "chr1\tsrc\tgene\t5\t9\t.\t+\t.\t"
+    lines += [bare, bare + "\t", bare + "\t ", bare, "chr1\tsrc\tgene\t5\t9\t.\t+\t.\tID=x\t", "chr1\tsrc\tgene\t5\t9\t.\t+\t.\tID=x"]
     # keep_order is off: a Feature prints its attributes in its own order, so reordered content prints differently
     feats = [feature_from_line(l) for l in lines]
     for i, f in enumerate(feats):
@@ -292,4 +296,4 @@ def replay(ctx, rec):
         n0 = len(ctx.violations)
         check_merge(ctx, c["raw"]["a1"], c["raw"]["a2"], c["raw"]["numeric"], gm.json[0]["exp"])
         return len(ctx.violations) > n0
-    return True
+    raise core.CannotReplay("the case could not be reconstructed from the model")
